@@ -171,6 +171,21 @@ def s_pg_returning(tab, Q=PostgreSQLQuery):
     return Q.update(t("update")).set(fld(t("set_lhs"), "a"), 1).where(fld(t("where"), "w") == 1).returning(fld(t("update"), "id"), fld(t("update"), "a") + 1)
 
 
+def s_pg_delete_returning(tab, Q=PostgreSQLQuery):
+    t = tab
+    return Q.from_(t("from")).delete().where(fld(t("where"), "w") == 1).returning(fld(t("from"), "id"), fld(t("from"), "a") + 1)
+
+
+def s_join_chain(tab, Q=Query):
+    # four joins: every joined item is a slot and is referred to again by the ON criterion of the next join
+    t = tab
+    return (Q.from_(t("from")).join(t("join1")).on(fld(t("from"), "id") == fld(t("join1"), "id"))
+            .join(t("join2"), JoinType.left).on(fld(t("from"), "id") == fld(t("join2"), "id"))
+            .join(t("join3")).on(fld(t("join1"), "id") == fld(t("join3"), "id"))
+            .join(t("join4"), JoinType.left).on((fld(t("join2"), "id") == fld(t("join4"), "id")) & (fld(t("join3"), "k") > 0))
+            .select(fld(t("select"), "a")))
+
+
 def s_pg_distinct_on(tab, Q=PostgreSQLQuery):
     t = tab
     return Q.from_(t("from")).distinct_on(fld(t("distinct_on"), "d")).select(fld(t("select"), "a"))
@@ -315,7 +330,7 @@ def s_delete_using(tab, Q=Query):
 # the clause structure is compared
 NONE_STRUCTURAL = {"pg_returning_star", "select2", "cte", "cte_insert_values"}
 STMTS = {f.__name__[2:]: f for f in (s_shared_terms, s_update_set_twice, s_insert_both_wheres, s_insert_target_where_only, s_cte_update, s_cte_insert_values, s_cte_delete, s_cte_terms, s_setop_nested, s_setop_nested_top, s_update_where_foreign, s_from_multi, s_from_first_multi, s_on_subquery, s_update_set_subquery, s_twins, s_nested, s_from_nested, s_pg_returning_star, s_pg_insert_returning, s_delete_using, s_select, s_select2, s_cross, s_cte, s_insert, s_insert_select, s_update, s_update_from, s_update_join,
-                                      s_delete, s_pg_returning, s_pg_distinct_on, s_setop)}
+                                      s_delete, s_pg_returning, s_pg_distinct_on, s_setop, s_pg_delete_returning, s_join_chain)}
 
 
 def slots_of(fn):
